@@ -278,6 +278,27 @@ Theorem C01_text_domain_sound : forall fo C body defs, CGV.Compose.TextDomain.te
 Proof. exact CGV.Compose.TextDomain.text_domain_sound. Qed.
 Definition C01_text_domain_class_zero := CGV.Compose.TextDomain.td_class_zero.
 
+(** ... and ONE executable test for the hypotheses of the text-level isomorphism theorem but the transcript ones
+    ([iso_domainb]: both descriptions pass text_domainb and the two cut records are same_mol).  Measured
+    (tools/props/c01.py --text-iso): for every generated case whose two strings write the same molecule - the cut string and
+    the uncut molecule as a single fragment, "{[#M]}.{#M=...}", another start atom and branch order - the test is true, so
+    "the result is the same as resolving the uncut molecule given as a single fragment" holds of the model's returned
+    molecules up to the explicit isomorphism whenever both calls return and the aromaticity transcripts agree. *)
+Theorem C01_text_iso_domain_sound : forall fo C1 body1 defs1 C2 body2 defs2,
+  CGV.Compose.TextDomain.iso_domainb fo C1 body1 defs1 C2 body2 defs2 = true ->
+  exists st1 fd1 st2 fd2,
+    CGV.Compose.TextCutDefs.from_text fo (CGV.Compose.TextCut.cut_string_of body1 defs1) = Ok st1 /\ Pipeline.st_dicts st1 = [fd1] /\
+    CGV.Compose.TextCutDefs.from_text fo (CGV.Compose.TextCut.cut_string_of body2 defs2) = Ok st2 /\ Pipeline.st_dicts st2 = [fd2] /\
+    forall car1 car2 fo1 fo2 ms1 ms2,
+      PipelineFull.resolve_step_full (Pipeline.st_legacy st1) (Pipeline.is_all_atom st1) fd1 (Pipeline.st_mol st1) (Some car1) = Ok fo1 ->
+      PipelineFull.resolve_step_full (Pipeline.st_legacy st2) (Pipeline.is_all_atom st2) fd2 (Pipeline.st_mol st2) (Some car2) = Ok fo2 ->
+      CGV.Compose.Transcript.transcript_ok (PipelineFull.fo_m3 fo1) car1 -> CGV.Compose.Transcript.transcript_ok (PipelineFull.fo_m3 fo2) car2 ->
+      CGV.Compose.CutIsoCar.corr_orders C1 C2 car1 car2 ->
+      sort_mapping (PipelineFull.fo_m4 fo1) = Ok ms1 -> sort_mapping (PipelineFull.fo_m4 fo2) = Ok ms2 ->
+      CGV.Compose.CutIsoCar.returned_iso_car CGV.Compose.ReturnedIso.after_sort_key C1 C2 car1 (PipelineFull.fo_m4 fo1) car2 (PipelineFull.fo_m4 fo2)
+        (PipelineFull.fo_mol fo1) (PipelineFull.fo_mol fo2) ms1 ms2.
+Proof. exact CGV.Compose.TextDomain.iso_domain_sound. Qed.
+
 Print Assumptions C01_bonding_partial.
 Print Assumptions C01_bonding_step.
 Print Assumptions C01_disjointness_test_sound.
@@ -318,3 +339,4 @@ Print Assumptions C01_text_level_skeleton_body.
 Print Assumptions C01_chain_text_level_nonvacuous.
 Print Assumptions C01_text_domain_sound.
 Print Assumptions C01_text_domain_class_zero.
+Print Assumptions C01_text_iso_domain_sound.
